@@ -15,10 +15,13 @@
 //!          9 ACQ_RESTORE (flag restored after a failed creator)   10 DROP (guard dropped; g v w re-observed before the drop)
 //!         11 FRESH_END (freshness callback returns; a = 1 false, 2 true, +4 if it ends inside the on-should-reload callback)
 //!         12 ONCB_END (on-should-reload callback returns)
+//!         11/12 with a = 3 / a = 1: the callback PANICS instead of returning;  14 CRE_PANIC (the creator panics)
 //!         13 BLOCKED (a = the point the thread was released from: it tried to take the notifier mutex while another
 //!            thread was parked inside a callback, and went to sleep on the mutex; it continues right after the
 //!            step that releases the mutex)
 //!   g v w  what returned in this step: 0 nothing, -1 acquire_env returned Err, -2 request_reload returned,
+//!          -3 the operation (acquire_env / request_reload) ended in a panic, caught by the worker (a panicking creator or
+//!          callback, or lock().unwrap() on a mutex that an earlier panic poisoned),
 //!          otherwise acquire_env returned a guard: g = generation of the creator call that built the environment,
 //!          v = number of completed REQ_SET steps when its template "v" was (re)loaded, w = source version it shows.
 //!
@@ -33,8 +36,10 @@
 //!   mode 1: params = limit d k j: DFS over all maximal schedules extending the prefix, at most `limit` runs,
 //!           only the part j of k (by hash of the first d choices); one run line each, then `END runs truncated`
 //!   mode 2: params = count seed: random schedules extending the prefix; run lines, then END
-//!   ops: 1 request_reload, 2 acquire_env + hold + drop;  creator script: bit0 = fail, bit1 = request inside
-//!   fresh: 0 no callback, 1 always false, 2 always true, 3 alternate starting true, 4 alternate starting false
+//!   ops: 1 request_reload, 2 acquire_env + hold + drop;  creator script: bit0 = fail, bit1 = request inside, bit2 = panic
+//!   fresh: 0 no callback, 1 always false, 2 always true, 3 alternate starting true, 4 alternate starting false,
+//!          5 first poll panics, 6 first poll true, second poll panics
+//!   oncb:  0 no callback, 1 callback, 2 its first invocation panics, 3 its second invocation panics
 //! Run line: `R <mode-0 case with the full schedule> | fast fresh oncb nev (tid point a g v w)* | loads oncb_calls status`
 //!   status 0 ok, 3 schedule names a thread that is not enabled.  Deadlock / hang: line `HANG ...` and exit 3.
 use minijinja::{Environment, Error, ErrorKind};
@@ -42,6 +47,7 @@ use minijinja_autoreload::{AutoReloader, Notifier};
 use mjverif::Rng;
 use std::cell::RefCell;
 use std::io::{BufRead, Write};
+use std::panic::{catch_unwind, AssertUnwindSafe};
 use std::sync::atomic::{AtomicU8, Ordering};
 use std::sync::{Arc, Condvar, Mutex};
 use std::time::{Duration, Instant};
@@ -119,7 +125,7 @@ impl Shared {
     fn yield_at(&self, tid: usize, pt: i64) {
         let mut g = self.m.lock().unwrap();
         if let Some(ev) = g.cur[tid].take() {
-            if ev.pt == 1 {
+            if ev.pt == 1 && ev.g != -3 {
                 // the step that ran the flag section of request_reload is complete
                 g.reqs_done += 1;
             }
@@ -147,7 +153,7 @@ impl Shared {
     fn finish(&self, tid: usize) {
         let mut g = self.m.lock().unwrap();
         if let Some(ev) = g.cur[tid].take() {
-            if ev.pt == 1 {
+            if ev.pt == 1 && ev.g != -3 {
                 g.reqs_done += 1;
             }
             g.out[tid].push(ev);
@@ -268,6 +274,11 @@ fn run_one(cfg: &Config, prefix: &[usize], rng: &mut Option<Rng>) -> RunResult {
             notifier.request_reload();
             sh.set_cur(tid, |ev| ev.g = -2);
         }
+        if act & 4 != 0 {
+            // user code blowing up in the middle of a rebuild
+            sh.yield_at(tid, 14);
+            panic!("scripted creator panic");
+        }
         let ok = act & 1 == 0;
         sh.m.lock().unwrap().last_creator_ok = ok;
         if ok {
@@ -291,9 +302,16 @@ fn run_one(cfg: &Config, prefix: &[usize], rng: &mut Option<Rng>) -> RunResult {
             let mut g = shc.m.lock().unwrap();
             let k = g.fresh_calls;
             g.fresh_calls += 1;
+            if (mode == 5 && k == 0) || (mode == 6 && k == 1) {
+                if let Some(ev) = g.cur[tid].as_mut() {
+                    ev.a = 3;
+                }
+                drop(g);
+                panic!("scripted freshness callback panic");
+            }
             let ans = match mode {
-                1 => false,
-                2 => true,
+                1 | 5 => false,
+                2 | 6 => true,
                 3 => k % 2 == 0,
                 _ => k % 2 == 1,
             };
@@ -304,16 +322,22 @@ fn run_one(cfg: &Config, prefix: &[usize], rng: &mut Option<Rng>) -> RunResult {
         });
     }
     if cfg.oncb != 0 {
+        let mode = cfg.oncb;
         notifier.set_on_should_reload_callback(move || {
             if let Some((shc, tid)) = ctx() {
-                {
+                let n = {
                     let mut g = shc.m.lock().unwrap();
                     g.oncb += 1;
                     if let Some(ev) = g.cur[tid].as_mut() {
                         ev.a += 4;
                     }
-                }
+                    g.oncb
+                };
                 shc.yield_at(tid, 12);
+                if (mode == 2 && n == 1) || (mode == 3 && n == 2) {
+                    shc.set_cur(tid, |ev| ev.a = 1);
+                    panic!("scripted on-should-reload callback panic");
+                }
             }
         });
     }
@@ -329,12 +353,14 @@ fn run_one(cfg: &Config, prefix: &[usize], rng: &mut Option<Rng>) -> RunResult {
             let notifier = reloader.notifier();
             for op in ops {
                 match op {
-                    1 => {
-                                    notifier.request_reload();
-                        sh.set_cur(tid, |ev| ev.g = -2);
-                    }
-                    _ => match reloader.acquire_env() {
-                        Ok(guard) => {
+                    1 => match catch_unwind(AssertUnwindSafe(|| notifier.request_reload())) {
+                        Ok(()) => sh.set_cur(tid, |ev| ev.g = -2),
+                        Err(_) => sh.set_cur(tid, |ev| ev.g = -3),
+                    },
+                    _ => match catch_unwind(AssertUnwindSafe(|| reloader.acquire_env())) {
+                        Err(_) => sh.set_cur(tid, |ev| ev.g = -3),
+                        Ok(Err(_)) => sh.set_cur(tid, |ev| ev.g = -1),
+                        Ok(Ok(guard)) => {
                             let (g, v, w) = observe(&guard);
                             sh.set_cur(tid, |ev| {
                                 ev.g = g;
@@ -350,7 +376,6 @@ fn run_one(cfg: &Config, prefix: &[usize], rng: &mut Option<Rng>) -> RunResult {
                             });
                             drop(guard);
                         }
-                        Err(_) => sh.set_cur(tid, |ev| ev.g = -1),
                     },
                 }
             }
@@ -413,7 +438,7 @@ fn run_one(cfg: &Config, prefix: &[usize], rng: &mut Option<Rng>) -> RunResult {
                 if ev.pt == 3 {
                     holder = Some(ev.tid);
                 }
-                if ev.g == -1 || ev.pt == 10 {
+                if ev.g == -1 || ev.pt == 10 || (ev.g == -3 && holder == Some(ev.tid)) {
                     holder = None;
                 }
                 trace.push(ev);
